@@ -1,11 +1,11 @@
 #!/bin/bash
-# usage: tools/seedsweep.sh [jobs]
+# usage: tools/seedsweep.sh [jobs] [id-regex]   (with a regex only those seeds are re-run and merged into SWEEP.json)
 # Re-checks every seeded change against the current checker: copies /repo to a scratch
 # directory per seed, applies seeded/<id>/patch.diff there, runs every property (quick) on
 # the copy, and records which rule keys report it. Writes seeded/SWEEP.json.
 # Nothing in /repo is touched. Scratch copies live under /tmp/seedsweep.* and are removed.
 set -u
-J=${1:-6}
+J=${1:-6}; RX=${2:-.}
 cd /verif
 export GOFLAGS=-mod=mod GOPROXY=off GOSUMDB=off GOTOOLCHAIN=local; unset GOWORK
 OUT=$(mktemp -d /tmp/seedsweep.XXXX)
@@ -32,10 +32,16 @@ PY
   rm -rf $d
 }
 export -f one
-ls seeded | grep -E '^C[0-9]+-v[0-9]+$' | xargs -P $J -I{} bash -c "one {} $OUT"
+ls seeded | grep -E '^C[0-9]+-v[0-9]+$' | grep -E "$RX" | xargs -P $J -I{} bash -c "one {} $OUT"
 python3 - $OUT <<'PY'
 import json,sys,glob,os
 res=[json.load(open(f)) for f in sorted(glob.glob(sys.argv[1]+'/*.json'))]
+try:
+    old=json.load(open('/verif/seeded/SWEEP.json'))
+except Exception:
+    old=[]
+new={r['seed'] for r in res}
+res=sorted([r for r in old if r['seed'] not in new and os.path.isdir('/verif/seeded/'+r['seed'])]+res, key=lambda r:(r['seed'][:3], int(r['seed'].split('-v')[1])))
 json.dump(res,open('/verif/seeded/SWEEP.json','w'),indent=1)
 n=len(res); ap=[r for r in res if r['applies']]; det=[r for r in ap if any(k.startswith(r['seed'][:3]+' ') for k in r['reported_by'])]
 print(f"{n} seeds, {len(ap)} apply to the current tree, {len(det)} reported by their own property's check")
